@@ -467,6 +467,69 @@ impl VerifConn {
         })
     }
 
+    /// C11: `open_connection_to_shard_aware_port(&ContactPoint(addr), shard, Sharder::new(nr_shards,
+    /// msb_ignore), &config)`, `config` being the hook's default configuration except for the given
+    /// fields. The error is mapped to a label.
+    #[allow(clippy::too_many_arguments)]
+    pub async fn open_to_shard_aware_port(
+        addr: SocketAddr,
+        shard: crate::routing::Shard,
+        nr_shards: crate::routing::ShardCount,
+        msb_ignore: u8,
+        local_ip_address: Option<std::net::IpAddr>,
+        port_range: ShardAwarePortRange,
+        reuse_address: Option<bool>,
+        connect_timeout: Duration,
+    ) -> Result<Self, String> {
+        let mut config = host_connection_config();
+        config.local_ip_address = local_ip_address;
+        config.shard_aware_local_port_range = port_range;
+        config.tcp_socket_options.reuse_address = reuse_address;
+        config.connect_timeout = connect_timeout;
+        let endpoint =
+            UntranslatedEndpoint::ContactPoint(crate::cluster::node::ResolvedContactPoint {
+                address: addr,
+            });
+        let sharder = crate::routing::Sharder::new(nr_shards, msb_ignore);
+        let (conn, error_receiver) =
+            open_connection_to_shard_aware_port(&endpoint, shard, sharder, &config)
+                .await
+                .map_err(|e| match &e {
+                    ConnectionError::NoSourcePortForShard(s) => format!("NoSourcePortForShard:{s}"),
+                    ConnectionError::IoError(io) => format!("IoError:{:?}", io.kind()),
+                    ConnectionError::ConnectTimeout => "ConnectTimeout".to_owned(),
+                    ConnectionError::BrokenConnection(b) => format!("Broken:{}", broken_kind(b)),
+                    other => format!("Other:{other}"),
+                })?;
+        let (label_sender, label_receiver) = oneshot::channel();
+        tokio::task::spawn(async move {
+            if let Ok(err) = error_receiver.await {
+                let label = match &err {
+                    ConnectionError::BrokenConnection(b) => broken_kind(b),
+                    other => format!("ConnectionError:{other}"),
+                };
+                let _ = label_sender.send(label);
+            }
+        });
+        Ok(Self {
+            conn: Arc::new(conn),
+            broken: StdMutex::new(Some(label_receiver)),
+        })
+    }
+
+    /// `Connection::get_shard_info()` projected to (shard, nr_shards, msb_ignore).
+    pub fn shard_info(&self) -> Option<(u16, u16, u8)> {
+        self.conn
+            .get_shard_info()
+            .as_ref()
+            .map(|i| (i.shard, i.nr_shards.get(), i.msb_ignore))
+    }
+
+    /// `Connection::get_shard_aware_port()`.
+    pub fn shard_aware_port(&self) -> Option<u16> {
+        self.conn.get_shard_aware_port()
+    }
+
     /// Label of the error that broke the connection, if it is broken by now.
     pub fn broken_label(&self) -> Option<String> {
         let mut guard = self.broken.lock().unwrap();
